@@ -273,6 +273,7 @@ func verifRecordMapRangers(on bool) {}
 func verifMapRangers() []string     { return nil }
 
 func verifSetNumCPU(n int)        {}
+func verifGoOrder(perm []int)     {}
 func verifTraceStart()            {}
 func verifTraceEvent(kind string) {}
 func verifScheduleCheck(cpus int, stepEncoding int) {}
